@@ -164,3 +164,26 @@ func statsReader(w *cWorld, on bool) func() {
 	}()
 	return func() { close(stop); wg.Wait() }
 }
+
+// The enumerated two-client windows of C03 under the race detector: the families in which a request is refused
+// after it changed cached state (so that its transaction is aborted while another client waits for one of its
+// inodes), the three-client eviction family and the half-freed start states completely, and a sample of the rest (quick 1/32, thorough 1/4).
+func TestC14Enum(t *testing.T) {
+	seed := EnvInt("VERIF_SEED", 1)
+	n := 0
+	enumLin(t, "C14", func(ec enumCase) bool {
+		n++
+		if ec.Sweep || ec.HalfFreed || ec.Op0.Kind == "renamelong" || ec.Op0.Kind == "createlong" {
+			return true
+		}
+		for _, o := range ec.Prog1 {
+			if o.Kind == "renamelong" || o.Kind == "createlong" {
+				return true
+			}
+		}
+		if Thorough() {
+			return Hash(seed, n, "c14")%4 == 0
+		}
+		return Hash(seed, n, "c14")%32 == 0
+	})
+}
